@@ -73,7 +73,9 @@ type ChunkDump struct {
 	TimeCount int64     `json:"time_count"`
 	Reads     []Read    `json:"reads"`
 	StatFail  string    `json:"stat_fail,omitempty"` // Go-side direct comparison of stored statistics with the decoded rows
-	TimeOnly  []string  `json:"time_only,omitempty"` // observations: statistics whose VALUE is right but whose time is not
+	// StatTimeFail: values right, but the stored time of an integer / float min / max is not the earliest row carrying it
+	StatTimeFail string   `json:"stat_time_fail,omitempty"`
+	TimeOnly     []string `json:"time_only,omitempty"` // observations: statistics whose VALUE is right but whose time is not
 }
 
 var fullSchema = func() record.Schemas {
@@ -364,8 +366,10 @@ func dumpChunk(file immutable.TSSPFile, order bool, sid uint64, series int, r *g
 					// query VALUE depends on it (FirstLastReader uses stored min/max of integer and float columns only), so this
 					// is recorded as an observation, not a failure of the property.
 					d.TimeOnly = append(d.TimeOnly, fmt.Sprintf("%s: min time %d/%d max time %d/%d (stored/rows)", tsdrv.FieldNames[cs.F], cs.MinT, mnT, cs.MaxT, mxT))
-				} else {
-					bad = fmt.Sprintf("min/max time %d/%d stored, %d/%d over the decoded values", cs.MinT, cs.MaxT, mnT, mxT)
+				} else if d.StatTimeFail == "" {
+					// integer / float: the VALUES are right; the stored time is not the EARLIEST time carrying the extreme value,
+					// which is the tie rule the model (and the hypothesis c_stats = build_stats of the chunk theorems) assumes
+					d.StatTimeFail = fmt.Sprintf("%s: min/max time %d/%d stored, %d/%d (earliest row carrying the value) over the decoded values", tsdrv.FieldNames[cs.F], cs.MinT, cs.MaxT, mnT, mxT)
 				}
 			}
 		}
@@ -408,7 +412,9 @@ func dumpChunk(file immutable.TSSPFile, order bool, sid uint64, series int, r *g
 				if !fnApplies(fn, f) {
 					continue
 				}
-				rd, err := preAggRead(file, sid, f, fn, lo, hi, asc)
+				// first / last are read ascending only: whether the engine runs its pre-aggregation readers on descending
+				// data at all is decided above them (open finding C09-desc-firstlast-shortcut, judged end to end)
+				rd, err := preAggRead(file, sid, f, fn, lo, hi, asc || fn == "first" || fn == "last")
 				if err != nil {
 					return nil, fmt.Errorf("pre-aggregation read %s(%s) %d..%d: %v", fn, tsdrv.FieldNames[f], lo, hi, err)
 				}
@@ -476,6 +482,8 @@ type MemCase struct {
 	Drop   bool      `json:"drop"`  // the builder dropped the record (single call on an all-null column)
 	OK     bool      `json:"ok"`
 	Why    string    `json:"why,omitempty"`
+	// TimeOnly: min / max VALUES right, but their time is not the earliest row carrying them
+	TimeOnly string `json:"time_only,omitempty"`
 }
 
 // MemStat: all statistics the builder left for the call's column
@@ -663,8 +671,11 @@ func runMemCase(r *gen.Rand) (mc MemCase) {
 			if ms.HasMM && why == "" {
 				mn, mnT, _ := expect("min", all)
 				mx, mxT, _ := expect("max", all)
-				if mn != ms.Min || mx != ms.Max || mnT != ms.MinT || mxT != ms.MaxT {
+				if mn != ms.Min || mx != ms.Max {
 					why = fmt.Sprintf("min (%d at %d) max (%d at %d), rows say (%d at %d) (%d at %d)", ms.Min, ms.MinT, ms.Max, ms.MaxT, mn, mnT, mx, mxT)
+				} else if (mnT != ms.MinT || mxT != ms.MaxT) && mc.TimeOnly == "" {
+					// values right; the time is not the earliest row carrying the extreme value (the model's tie rule)
+					mc.TimeOnly = fmt.Sprintf("%s: min (%d at %d) max (%d at %d), earliest rows carrying them: %d, %d", tsdrv.FieldNames[c.Field], ms.Min, ms.MinT, ms.Max, ms.MaxT, mnT, mxT)
 				}
 			}
 			if why != "" && mc.OK {
